@@ -4,6 +4,8 @@
 import Mb2.Build
 import Mb2.Props.C06
 import Mb2.Props.C10
+import Mb2.Props.C07
+import Mb2.HTags
 namespace Mb2.C12
 open Mb2
 
@@ -55,5 +57,316 @@ theorem set_size_keeps_checksum_valid (hdr : Bytes) (total : Nat) (ht : total < 
 /-! Non-vacuity -/
 example : Spec.tagsOf .ht ([3,0,1,0, 12,0,0,0, 0x78,0x56,0x34,0x12, 0,0,0,0] ++ endHImg) =
     ([⟨0, 3, 12, 4⟩, ⟨16, 0, 8, 0⟩], .done) := by decide
+
+theorem HMAGIC_lt : HMAGIC < 4294967296 := by decide
+
+/-- a four-word header reads back word by word -/
+theorem words4 (a b c d : Nat) (rest : Bytes) :
+    le32 (enc32 a ++ enc32 b ++ enc32 c ++ enc32 d ++ rest) 0 = a % 4294967296 ∧
+    le32 (enc32 a ++ enc32 b ++ enc32 c ++ enc32 d ++ rest) 4 = b % 4294967296 ∧
+    le32 (enc32 a ++ enc32 b ++ enc32 c ++ enc32 d ++ rest) 8 = c % 4294967296 ∧
+    le32 (enc32 a ++ enc32 b ++ enc32 c ++ enc32 d ++ rest) 12 = d % 4294967296 := by
+  simp only [List.append_assoc]
+  refine ⟨le32_enc32 a _, ?_, ?_, ?_⟩
+  · have := le32_append_right (enc32 a) (enc32 b ++ (enc32 c ++ (enc32 d ++ rest))) 0
+    rw [enc32_length] at this; rw [this]; exact le32_enc32 b _
+  · have := le32_append_right (enc32 a ++ enc32 b) (enc32 c ++ (enc32 d ++ rest)) 0
+    rw [show (enc32 a ++ enc32 b).length = 8 from rfl] at this
+    rw [List.append_assoc] at this; rw [this]; exact le32_enc32 c _
+  · have := le32_append_right (enc32 a ++ enc32 b ++ enc32 c) (enc32 d ++ rest) 0
+    rw [show (enc32 a ++ enc32 b ++ enc32 c).length = 12 from rfl] at this
+    simp only [List.append_assoc] at this; rw [this]; exact le32_enc32 d _
+
+/-- C12, end to end on the model: handing ANY list of well-formed header-tag images (plus the end tag) to the final
+    `new_boxed` of the header builder yields - without panic, for either architecture - a structure whose length word is
+    its exact byte length, which is a multiple of 8 long, allocated 8-aligned with exactly that size, whose four header
+    words sum to 0 (mod 2^32), which LOADS successfully (`Multiboot2Header::load` model) and whose tag area is the images
+    back to back followed by the end tag (so that, by `built_header_area_walk`, the walk is exactly the supplied tags
+    followed by one end tag). -/
+theorem build_wellformed (p : Profile) (arch : Nat) (harch : arch = 0 ∨ arch = 4) (imgs : List Bytes)
+    (hwf : ∀ b ∈ imgs, C06.WFImg b) (hlen : imgs.flatten.length + 24 < 2^32) :
+    let total := 16 + imgs.flatten.length + 8
+    let ck := calcChecksum HMAGIC arch total
+    let bytes := enc32 HMAGIC ++ enc32 arch ++ enc32 total ++ enc32 ck ++ (imgs.flatten ++ endHImg)
+    newBoxed p .hb (genericDesc .hb) (enc32 HMAGIC ++ enc32 arch ++ enc32 0 ++ enc32 (calcChecksum HMAGIC arch 0))
+        (imgs ++ [endHImg]) = .ok ⟨bytes, total, 8, total⟩ ∧
+    bytes.length = total ∧ total % 8 = 0 ∧
+    (HMAGIC + arch + total + ck) % 4294967296 = 0 ∧
+    hload p false bytes = .ok (.ok ⟨HMAGIC, arch, total, ck⟩) ∧
+    (bytes.take total).drop 16 = imgs.flatten ++ endHImg := by
+  intro total ck bytes
+  have hL : imgs.flatten.length + 24 < 4294967296 := hlen
+  have hW := W64_eq
+  have hM := HMAGIC_lt
+  have ha : arch < 4294967296 := by omega
+  have hm := C06.wf_len_mod imgs hwf
+  have hend : endHImg.length = 8 := rfl
+  have hflat : (imgs ++ [endHImg]).flatten = imgs.flatten ++ endHImg := by simp
+  have hcl : (imgs.flatten ++ endHImg).length = imgs.flatten.length + 8 := by simp [hend]
+  have htot : total = 16 + (imgs.flatten ++ endHImg).length := by simp only [total, hcl]; omega
+  have htl : total < 4294967296 := by simp only [total]; omega
+  have hbl : bytes.length = total := by
+    simp only [bytes, List.length_append, enc32_length, hend, total]; omega
+  have htm : total % 8 = 0 := by simp only [total]; omega
+  have hr8 : roundUp8 total = total := roundUp8_of_mod total htm
+  have law := C10.checksum_law HMAGIC arch total hM ha htl
+  have hck : ck < 4294967296 := law.2
+  obtain ⟨w0, w4, w8, w12⟩ := words4 HMAGIC arch total ck (imgs.flatten ++ endHImg)
+  rw [Nat.mod_eq_of_lt hM] at w0
+  rw [Nat.mod_eq_of_lt ha] at w4
+  rw [Nat.mod_eq_of_lt htl] at w8
+  rw [Nat.mod_eq_of_lt hck] at w12
+  refine ⟨?_, hbl, htm, (by have := law.1; simp only [ck]; omega), ?_, ?_⟩
+  · unfold newBoxed
+    simp only [hflat]
+    have hh : HK.hb.hsize = 16 := rfl
+    rw [hh, ← htot, incAlign_eq p _ (by omega), hr8]
+    simp only [Res.bind_ok]
+    have hd : (genericDesc .hb).dstLen p total = .ok (total - 16) := by
+      simp only [genericDesc, payloadLen, HK.hsize]
+    rw [hd]
+    simp only [Res.bind_ok]
+    have hs : (genericDesc .hb).sizeOfVal (total - 16) = total := by
+      simp only [genericDesc, TyDesc.sizeOfVal, HK.hsize, roundUp]
+      have e : 16 + (total - 16) * 1 + 8 - 1 = total + 7 := by simp only [total]; omega
+      rw [e]
+      exact hr8
+    rw [hs, if_neg (by simp)]
+    obtain ⟨v0, v4, _, _⟩ := words4 HMAGIC arch 0 (calcChecksum HMAGIC arch 0) []
+    rw [List.append_nil, Nat.mod_eq_of_lt hM] at v0
+    rw [List.append_nil, Nat.mod_eq_of_lt ha] at v4
+    have hset : setSize .hb (enc32 HMAGIC ++ enc32 arch ++ enc32 0 ++ enc32 (calcChecksum HMAGIC arch 0)) total =
+        enc32 HMAGIC ++ enc32 arch ++ enc32 total ++ enc32 ck := by
+      simp only [setSize]
+      rw [v0, v4, Nat.mod_eq_of_lt htl]
+      have : (enc32 HMAGIC ++ enc32 arch ++ enc32 0 ++ enc32 (calcChecksum HMAGIC arch 0)).take 8 = enc32 HMAGIC ++ enc32 arch := by
+        simp only [List.append_assoc]
+        rw [← List.append_assoc, List.take_append_of_le_length (by simp [enc32_length])]
+        exact List.take_of_length_le (by simp [enc32_length])
+      rw [this]
+    rw [hset]
+    rfl
+  · rw [C10.hload_eq p bytes ⟨by omega, by rw [show le32 bytes 8 = total from w8]; omega⟩]
+    have w0' : le32 bytes 0 = HMAGIC := w0
+    have w4' : le32 bytes 4 = arch := w4
+    have w8' : le32 bytes 8 = total := w8
+    have w12' : le32 bytes 12 = ck := w12
+    simp only [w0', w4', w8', w12']
+    rw [if_neg (by simp only [total]; omega), if_neg (by omega), if_neg (by simp), if_neg (by omega), if_neg (by simp [ck])]
+  · rw [List.take_of_length_le (by omega)]
+    simp only [bytes, List.append_assoc]
+    simp [enc32]
+
+theorem hdrHdr_size (typ flags size : Nat) (rest : Bytes) : le32 (hdrHdr typ flags size ++ rest) 4 = size % 4294967296 := by
+  unfold hdrHdr
+  have := le32_append_right (enc16 typ ++ enc16 flags) (enc32 size ++ rest) 0
+  rw [show (enc16 typ ++ enc16 flags).length = 4 from rfl] at this
+  simp only [List.append_assoc] at this ⊢
+  rw [this]; exact le32_enc32 size _
+
+/-- every fixed-size header-tag image is well-formed for the builder -/
+theorem sizedHImg_wf (typ flags : Nat) (payload : Bytes) (hs : 8 + payload.length < 4294967296) :
+    C06.WFImg ((sizedHImg typ flags (8 + payload.length) payload).asBytes) := by
+  have g := roundUp8_ge (8 + payload.length)
+  have hlen : ((sizedHImg typ flags (8 + payload.length) payload).asBytes).length = roundUp8 (8 + payload.length) := by
+    unfold Img.asBytes sizedHImg
+    simp only [List.length_append, zeros, List.length_replicate, hdrHdr, enc32_length, enc16_length]
+    omega
+  have hd : le32 ((sizedHImg typ flags (8 + payload.length) payload).asBytes) 4 = 8 + payload.length := by
+    unfold Img.asBytes sizedHImg
+    simp only
+    rw [List.append_assoc, hdrHdr_size, Nat.mod_eq_of_lt hs]
+  unfold C06.WFImg
+  rw [hlen, hd]
+  exact ⟨by omega, by omega, rfl⟩
+
+theorem sizedHImg_wf' (typ flags c : Nat) (payload : Bytes) (hc : c = 8 + payload.length) (hs : c < 4294967296) :
+    C06.WFImg ((sizedHImg typ flags c payload).asBytes) := by
+  subst hc; exact sizedHImg_wf typ flags payload hs
+
+/-- the nine fixed-size header-tag constructors: name, the kind it must produce, blob bytes consumed -/
+def sizedHCtors : List (String × HKind × Nat) :=
+  [("h_address", .address, 18), ("h_entry", .entry, 6), ("h_console", .console, 6), ("h_fb", .fb, 14), ("h_modalign", .modalign, 2),
+   ("h_efibs", .efibs, 2), ("h_efi32", .efi32, 6), ("h_efi64", .efi64, 6), ("h_reloc", .reloc, 18), ("h_end", .end_, 0)]
+
+/-- For every fixed-size header-tag constructor and ALL argument values: type = the kind's (= the specification's) number,
+    flags ∈ {0,1}, size = the kind's exact unpadded size, exactly that many bytes initialised, and `as_bytes()` is a
+    well-formed builder image (8-multiple long, size field rounds up to its length). -/
+theorem sized_hctor_exact : ∀ c ∈ sizedHCtors, ∀ (p : Profile) (blob : Bytes), c.2.2 ≤ blob.length →
+    ∃ img, ctorImpl p c.1 blob = .ok img ∧ img.typ = c.2.1.typ ∧ img.size = c.2.1.desc.fixed ∧
+      (img.flags = some 0 ∨ img.flags = some 1) ∧ img.bytes.length = img.size ∧ C06.WFImg img.asBytes := by
+  intro c hc p blob hlen
+  simp only [sizedHCtors, List.mem_cons, List.mem_nil_iff, or_false] at hc
+  rcases hc with h | h | h | h | h | h | h | h | h | h <;> subst h <;> simp only at hlen
+  all_goals
+    refine ⟨_, rfl, rfl, rfl, ?_, ?_, ?_⟩
+  all_goals first
+    | (have := Nat.mod_lt (le16 blob 0) (show 0 < 2 by omega)
+       simp only [sizedHImg, Option.some.injEq]; omega)
+    | (left; rfl)
+    | (refine sizedHImg_wf' _ _ _ _ ?_ (by decide)
+       simp only [List.length_append, enc32_length, List.length_nil]
+       repeat rw [slice_length _ _ _ (by omega)])
+    | (simp only [sizedHImg, hdrHdr, List.length_append, enc32_length, enc16_length, List.length_nil]
+       repeat rw [slice_length _ _ _ (by omega)]
+       done)
+
+theorem setSize_hdrHdr (typ flags total : Nat) : setSize .ht (hdrHdr typ flags 0) total = hdrHdr typ flags total := by
+  unfold setSize hdrHdr HK.sizeOff
+  simp [enc32, enc16]
+
+theorem newBoxed_inforeq (p : Profile) (flags : Nat) (ids : Bytes) (h4 : ids.length % 4 = 0) (hlen : ids.length < 2^32) :
+    newBoxed p .ht infoReqDesc (hdrHdr 1 flags 0) [ids] =
+      .ok ⟨hdrHdr 1 flags (8 + ids.length) ++ ids, roundUp8 (8 + ids.length), 8, roundUp8 (8 + ids.length)⟩ := by
+  have hL : ids.length < 4294967296 := hlen
+  have hW := W64_eq
+  unfold newBoxed
+  have hf : [ids].flatten = ids := by simp
+  simp only [hf, HK.hsize]
+  rw [incAlign_eq p _ (by omega)]
+  simp only [Res.bind_ok]
+  have hd : infoReqDesc.dstLen p (8 + ids.length) = .ok (ids.length / 4) := by
+    simp only [infoReqDesc]
+    rw [usub_ok p _ _ _ (by omega)]
+    simp only [Res.bind_ok]
+    rw [if_neg (by omega)]
+    congr 2; omega
+  rw [hd]
+  simp only [Res.bind_ok]
+  have e : ids.length / 4 * 4 = ids.length := Nat.div_mul_cancel (Nat.dvd_of_mod_eq_zero h4)
+  have hs : infoReqDesc.sizeOfVal (ids.length / 4) = roundUp8 (8 + ids.length) := by
+    simp only [infoReqDesc, TyDesc.sizeOfVal, roundUp, roundUp8, e]
+    have e2 : 8 + ids.length + 8 - 1 = 8 + ids.length + 7 := by omega
+    rw [e2]
+  rw [hs, if_neg (by simp), setSize_hdrHdr]
+  rfl
+
+/-- `InformationRequestHeaderTag::new` for ALL flag values and request lists: never panics; type 1, flags ∈ {0,1},
+    size 8 + 4·n, the header followed by exactly the n request words, a well-formed builder image. -/
+theorem inforeq_ctor (p : Profile) (blob : Bytes) (h2 : 2 ≤ blob.length) (hlen : blob.length + 8 < 2^32) :
+    ∃ img, ctorImpl p "h_inforeq" blob = .ok img ∧ img.typ = 1 ∧ img.flags = some (le16 blob 0 % 2) ∧
+      img.size = 8 + (blob.length - 2) / 4 * 4 ∧
+      img.bytes = hdrHdr 1 (le16 blob 0 % 2) (8 + (blob.length - 2) / 4 * 4) ++ slice blob 2 ((blob.length - 2) / 4 * 4) ∧
+      C06.WFImg img.asBytes := by
+  have hL : blob.length + 8 < 4294967296 := hlen
+  have hil : (slice blob 2 ((blob.length - 2) / 4 * 4)).length = (blob.length - 2) / 4 * 4 :=
+    slice_length _ _ _ (by omega)
+  have hnb := newBoxed_inforeq p (le16 blob 0 % 2) (slice blob 2 ((blob.length - 2) / 4 * 4))
+    (by rw [hil]; omega) (by rw [hil]; omega)
+  rw [hil] at hnb
+  refine ⟨⟨1, some (le16 blob 0 % 2), 8 + (blob.length - 2) / 4 * 4,
+    hdrHdr 1 (le16 blob 0 % 2) (8 + (blob.length - 2) / 4 * 4) ++ slice blob 2 ((blob.length - 2) / 4 * 4),
+    roundUp8 (8 + (blob.length - 2) / 4 * 4)⟩, ?_, rfl, rfl, rfl, rfl, ?_⟩
+  · show (do
+      let b ← newBoxed p .ht infoReqDesc (hdrHdr 1 (le16 blob 0 % 2) 0) [slice blob 2 ((blob.length - 2) / 4 * 4)]
+      pure (⟨1, some (le16 blob 0 % 2), 8 + (slice blob 2 ((blob.length - 2) / 4 * 4)).length, b.bytes, b.deallocSize⟩ : Img)) = _
+    rw [hnb, hil]
+    rfl
+  · have hb : (blob.length - 2) / 4 * 4 ≤ blob.length - 2 := Nat.div_mul_le_self _ _
+    generalize hn : (blob.length - 2) / 4 * 4 = n at *
+    have g := roundUp8_ge (8 + n)
+    unfold C06.WFImg Img.asBytes
+    simp only
+    have hm : (8 + n) % 4294967296 = 8 + n := Nat.mod_eq_of_lt (by omega)
+    rw [List.append_assoc, hdrHdr_size, hm]
+    simp only [List.length_append, hil, zeros, List.length_replicate, hdrHdr, enc32_length, enc16_length]
+    omega
+
+/-- an operation the header builder accepts: one of its ten slots with its argument bytes present -/
+def HOpOk (op : String × Bytes) : Prop :=
+  (∃ c ∈ sizedHCtors, c.1 = op.1 ∧ c.2.2 ≤ op.2.length) ∨ (op.1 = "h_inforeq" ∧ 2 ≤ op.2.length ∧ op.2.length + 8 < 2^32)
+
+theorem opImg_wf (p : Profile) (op : String × Bytes) (h : HOpOk op) :
+    ∃ img, opImg p op.1 op.2 = .ok img ∧ C06.WFImg img.asBytes := by
+  rcases h with ⟨c, hc, hn, hl⟩ | ⟨hn, h2, hl⟩
+  · obtain ⟨img, hi, _, _, _, _, hw⟩ := sized_hctor_exact c hc p op.2 hl
+    refine ⟨img, ?_, hw⟩
+    unfold opImg
+    rw [← hn]
+    simp only [sizedHCtors, List.mem_cons, List.mem_nil_iff, or_false] at hc
+    rcases hc with h | h | h | h | h | h | h | h | h | h <;> subst h <;> rw [if_neg (by decide)] <;> exact hi
+  · obtain ⟨img, hi, _, _, _, _, hw⟩ := inforeq_ctor p op.2 h2 hl
+    refine ⟨img, ?_, hw⟩
+    unfold opImg
+    rw [hn, if_neg (by decide)]
+    exact hi
+
+/-- builder-state invariant: every stored tag image is well-formed -/
+def StWF (st : BState) : Prop := ∀ slot, ∀ img ∈ st.get slot, C06.WFImg img.asBytes
+
+theorem stwf_empty : StWF [] := by
+  intro slot img h; simp [BState.get] at h
+
+theorem stwf_put (st : BState) (slot : String) (multi : Bool) (img : Img) (h : StWF st) (hw : C06.WFImg img.asBytes) :
+    StWF (st.put slot multi img) := by
+  intro s i hi
+  by_cases hs : s = slot
+  · subst hs
+    rw [C06.slot_put_same] at hi
+    cases multi
+    · simp at hi; subst hi; exact hw
+    · simp at hi
+      rcases hi with hi | hi
+      · exact h s i hi
+      · subst hi; exact hw
+  · rw [C06.slot_put_other st slot s multi img hs] at hi
+    exact h s i hi
+
+/-- the header builder never panics on accepted operations, and every stored image stays well-formed -/
+theorem runOps_wf (p : Profile) (slots : List (String × Bool)) (ops : List (String × Bytes)) (hops : ∀ op ∈ ops, HOpOk op) :
+    ∀ st, StWF st → ∃ st', runOps p slots st ops = .ok st' ∧ StWF st' := by
+  induction ops with
+  | nil => intro st h; exact ⟨st, rfl, h⟩
+  | cons op rest ih =>
+    intro st h
+    obtain ⟨img, hi, hw⟩ := opImg_wf p op (hops op (by simp))
+    obtain ⟨name, blob⟩ := op
+    simp only at hi
+    unfold runOps
+    rw [hi]
+    exact ih (fun o ho => hops o (by simp [ho])) _ (stwf_put st name _ img h hw)
+
+/-- C12 END TO END (model): for EVERY sequence of accepted builder operations (any of the ten slots, any argument values,
+    any order, any repetitions) and either architecture, `Builder::build` stores per slot the image of the last call, every
+    stored image is well-formed, and - unless the result would exceed the 32-bit length field - the built structure
+    (a) is produced without panic with allocation size = length = deallocation size, 8-aligned;
+    (b) has a length word equal to its byte count, a multiple of 8, and four header words summing to 0 mod 2^32;
+    (c) loads successfully; and
+    (d) its tag walk yields exactly the stored tags, in slot order, followed by exactly one end tag. -/
+theorem buildHdr_wellformed (p : Profile) (arch : Nat) (harch : arch = 0 ∨ arch = 4) (ops : List (String × Bytes))
+    (hops : ∀ op ∈ ops, HOpOk op) :
+    ∃ st, runOps p hdrSlots [] ops = .ok st ∧
+      let imgs := (hdrSlots.flatMap fun s => st.get s.1).map Img.asBytes
+      (∀ b ∈ imgs, C06.WFImg b) ∧
+      (imgs.flatten.length + 24 < 2^32 →
+        let total := 16 + imgs.flatten.length + 8
+        let ck := calcChecksum HMAGIC arch total
+        let bytes := enc32 HMAGIC ++ enc32 arch ++ enc32 total ++ enc32 ck ++ (imgs.flatten ++ endHImg)
+        buildHdr p arch ops = .ok ⟨bytes, total, 8, total⟩ ∧
+        bytes.length = total ∧ total % 8 = 0 ∧ (HMAGIC + arch + total + ck) % 4294967296 = 0 ∧
+        hload p false bytes = .ok (.ok ⟨HMAGIC, arch, total, ck⟩) ∧
+        Spec.tagsOf .ht ((bytes.take total).drop 16) =
+          (C06.itemsOf .ht imgs 0 ++ [⟨imgs.flatten.length, 0, 8, 0⟩], .done)) := by
+  obtain ⟨st, hrun, hst⟩ := runOps_wf p hdrSlots ops hops [] stwf_empty
+  refine ⟨st, hrun, ?_⟩
+  intro imgs
+  have hwf : ∀ b ∈ imgs, C06.WFImg b := by
+    intro b hb
+    simp only [imgs, List.mem_map, List.mem_flatMap] at hb
+    obtain ⟨img, ⟨s, _, hi⟩, rfl⟩ := hb
+    exact hst s.1 img hi
+  refine ⟨hwf, ?_⟩
+  intro hlen total ck bytes
+  obtain ⟨h1, h2, h3, h4, h5, h6⟩ := build_wellformed p arch harch imgs hwf hlen
+  refine ⟨?_, h2, h3, h4, h5, ?_⟩
+  · unfold buildHdr
+    rw [hrun]
+    exact h1
+  · rw [h6]
+    exact built_header_area_walk imgs hwf
+
+/-! Non-vacuity: a concrete accepted operation sequence -/
+example : HOpOk ("h_entry", [1,0, 0x78,0x56,0x34,0x12]) := Or.inl ⟨("h_entry", .entry, 6), by simp [sizedHCtors], rfl, by simp⟩
+example : (buildHdr .dev 0 [("h_entry", [1,0, 0x78,0x56,0x34,0x12])]).isOk = true := by decide
 
 end Mb2.C12
